@@ -33,7 +33,8 @@ func policyString(c pCase) (string, string) {
 		op = ""
 	}
 	num := map[string]string{"0": "0", "3": "3", "4": "4", "5": "5", "100": "100", "max-uint64": "18446744073709551615",
-		"max-uint64+1": "18446744073709551616", "-1": "-1", "3.5": "3.5", "abc": "abc", "empty": "", "+3": "+3", "03": "03", "1e3": "1e3"}[c.Num]
+		"max-uint64+1": "18446744073709551616", "-1": "-1", "3.5": "3.5", "abc": "abc", "empty": "", "+3": "+3", "03": "03", "1e3": "1e3",
+		"040": "040", "0x3c": "0x3c", "0b11": "0b11", "0o17": "0o17", "3_0": "3_0"}[c.Num]
 	toks := []string{}
 	for _, t := range []string{kind, op, num} {
 		if t != "" {
@@ -88,6 +89,9 @@ func TestVerifPolicy(t *testing.T) {
 	cfg := filepath.Join(scratch, "store.yaml")
 	os.WriteFile(cfg, []byte(concrete.ConfigYAML(base, 1, sets, []uint{1, 2})), 0600)
 	probes := []string{"x", "password", "Tr0ub4dor&3", "correct horse battery staple", "zq9!Lm#48vRw^t2Ypk"}
+	for n := 3; n <= 14; n++ { // graded entropies, so that thresholds like 32 and 40 are told apart
+		probes = append(probes, "qzj7w#kx9v!mfp2"[:n])
+	}
 	n, evals := 0, 0
 	for sc.Scan() {
 		var e pEdge
@@ -118,7 +122,7 @@ func TestVerifPolicy(t *testing.T) {
 				bad("wellformed-policy-refused:"+key, perr.Error())
 				continue
 			}
-			thr := map[string]float64{"0": 0, "3": 3, "4": 4, "5": 5, "100": 100, "max-uint64": 18446744073709551615, "03": 3}[e.Case.Num]
+			thr := map[string]float64{"0": 0, "3": 3, "4": 4, "5": 5, "100": 100, "max-uint64": 18446744073709551615, "03": 3, "040": 40}[e.Case.Num]
 			for _, pw := range probes {
 				for _, user := range []string{"alice", "correct", "x"} {
 					s := zxcvbn.PasswordStrength(pw, []string{user, "whawty"})
